@@ -39,7 +39,7 @@ def c04(cx):
 @prop("C06", "LEA rules R-CHANNEL (constant channel/type sets of every emission satisfy the channel policy of the "
              "property; ExpectSymbol pairs checked at their constructors) and R-ADVANCE-EVIDENCE.")
 def c06(cx):
-    lea_glue.apply(cx, ["R-CHANNEL", "R-ADVANCE-EVIDENCE", "R-MARK-WS", "R-DELIM-SHAPE"])
+    lea_glue.apply(cx, ["R-CHANNEL", "R-ADVANCE-EVIDENCE", "R-MARK-WS", "R-DELIM-SHAPE", "R-NONEMPTY"])
 
 
 @prop("C09", "LEA: R-CKPT (checkpoint typestate on every path and through every live-checkpoint region: no "
@@ -63,7 +63,7 @@ def c07(cx):
 @prop("C10", "LEA rules R-RETYPE-GUARD (a token is retyped through the same look-behind accessor that guarded it) and "
              "R-EXPECT-TABLE clauses LPAREN-FIRST / PARENS-BALANCED for every argument-taking built-in keyword.")
 def c10(cx):
-    lea_glue.apply(cx, ["R-RETYPE-GUARD", "R-EXPECT-TABLE"])
+    lea_glue.apply(cx, ["R-RETYPE-GUARD", "R-EXPECT-TABLE", "R-FINALIZE-ONCE"])
 
 
 @prop("C13", "LEA rule R-NESTING-FLUSH: every exit of a parenthesis-counting argument scanner pops the mode, stores the "
@@ -76,7 +76,7 @@ def c13(cx):
              "sequence satisfies the delimiter clauses of the property ('(' first, ',' after the first %scan/%substr "
              "argument, '=' after the %let name, '/' after the %copy name, ';' last) and R-ERR-PAIR when built.")
 def c14(cx):
-    lea_glue.apply(cx, ["R-EXPECT-TABLE"])
+    lea_glue.apply(cx, ["R-EXPECT-TABLE", "R-ERR-PAIR"])
 
 
 @prop("C03", "structural rules R-CURSOR-COUNT (every chars.next() of Cursor::advance/advance_by is matched by +1 on "
@@ -105,7 +105,7 @@ def c02(cx):
 def c12(cx):
     fx = cx.facts("dev-none-stable")
     rules_struct.r_pair_counters(cx, fx)
-    lea_glue.apply(cx, ["R-CKPT"])
+    lea_glue.apply(cx, ["R-CKPT", "R-PENDING"])
 
 
 @prop("C17", "R-BOM-ORDER: the BOM constant is only looked at in Lexer::new, where it is eaten before the first "
@@ -123,6 +123,13 @@ def c17(cx):
 def c05(cx):
     rules_bulk.run(cx)
     rules_struct.r_units(cx, ["dev-none-stable"])
+
+
+@prop("C11", "LEA rules on macro-free open-code paths: R-PENDING (the pending-statement flag follows the last DEFAULT "
+             "token: false after ';', true otherwise), R-DELIM-SHAPE (comments consume disjoint opener and closer), "
+             "R-NONEMPTY. Decides the statement-context flag and token-shape clauses, not equivalence with a reference lexer.")
+def c11(cx):
+    lea_glue.apply(cx, ["R-PENDING", "R-DELIM-SHAPE", "R-NONEMPTY"])
 
 
 def run(cx):
